@@ -205,10 +205,15 @@ func tEq(a, b *Term) *Term {
 		a, b = b, a
 	}
 	if a.width > 0 {
-		// linear: a == b  <=>  a-b == 0; if a-b is a non-zero constant the answer is false
+		// linear: a == b  <=>  a-b == 0 (always, modulo 2^n); if a-b is a constant the answer is
+		// known, and if the difference drops shared atoms the simpler equation is emitted
 		d := bvSub(a, b)
 		if d.isConst {
 			return boolConst(d.cval == 0)
+		}
+		if d.lin != nil && len(d.lin.atoms) < len(linOf(a).atoms)+len(linOf(b).atoms) && d != a && d != b {
+			z := bvConst(a.width, 0)
+			return mkOp("Bool", 0, "=", 0, fmt.Sprintf("(= %s %s)", z, d), z, d)
 		}
 	}
 	return mkOp("Bool", 0, "=", 0, fmt.Sprintf("(= %s %s)", a, b), a, b)
